@@ -1044,7 +1044,7 @@ func (t *FnTrans) setVal(v ssa.Value, x Val) {
 	defer func() { t.noteRef(t.vals[v]) }()
 	// name scalar terms so that queries stay small
 	if x.K == VScalar {
-		if s := t.mode.scalarSort(v.Type()); s != "" && strings.Contains(x.S, " ") {
+		if s := t.mode.scalarSort(v.Type()); s != "" && strings.Contains(x.S, " ") && !strings.HasPrefix(x.S, "(_ bv") {
 			n := fmt.Sprintf("v!%s!%d", sanitize(v.Name()), t.nextID())
 			t.defs = append(t.defs, fmt.Sprintf("(define-fun %s () %s %s)", n, s, x.S))
 			x.S = n
@@ -1056,7 +1056,7 @@ func (t *FnTrans) setVal(v ssa.Value, x Val) {
 			if i == 0 {
 				srt = "Int"
 			}
-			if strings.Contains(x.Sub[i].S, " ") {
+			if strings.Contains(x.Sub[i].S, " ") && !strings.HasPrefix(x.Sub[i].S, "(_ bv") {
 				n := fmt.Sprintf("v!%s.%d!%d", sanitize(v.Name()), i, t.nextID())
 				t.defs = append(t.defs, fmt.Sprintf("(define-fun %s () %s %s)", n, srt, x.Sub[i].S))
 				x.Sub[i].S = n
